@@ -72,7 +72,7 @@ pub fn contract(rng: &mut Rng, ctx: &Ctx) -> String {
 const GOOD_KEYS: &[&str] = &["a", "key", "k_1", "x%20y", "%c3%a4", "a_"];
 const BAD_KEYS: &[&str] = &["%", "_a", "%20", "%20_x", "%09", "_", "%e2%80%83", "%c2%a0_k", "%e3%80%80", "_contract_address", "_contract_address%20", "%20_contract_address"];
 const TRICKY_OK_KEYS: &[&str] = &["%e2%80%8b", "%ef%bb%bf", "%e1%a0%8e", "a%20", "%20a", "%e2%80%8b_x", "x_"];
-const GOOD_TYS: &[&str] = &["ev", "foo", "ab", "%20ab%20", "%c3%a4", "wasm"];
+const GOOD_TYS: &[&str] = &["ev", "foo", "ab", "%20ab%20", "%c3%a4", "wasm", "wasm-ev", "wasm-", "wasm-wasm-x", "execute", "reply"];
 const BAD_TYS: &[&str] = &["%", "a", "%20a%20", "%20", "%09x%0a", "%e2%80%83b"];
 const VALS: &[&str] = &["v", "%", "%20", "_v", "1"];
 
@@ -200,7 +200,7 @@ pub fn gen_script(rng: &mut Rng, ctx: &mut Ctx, depth: u32, is_reply: bool) -> S
             let o = if rng.chance(1, 2) { "asc" } else { "desc" };
             let s = if rng.chance(1, 2) { "~".to_string() } else { rng.pick(KEYS).to_string() };
             let e = if rng.chance(1, 2) { "~".to_string() } else { rng.pick(KEYS).to_string() };
-            acts.push(format!("({} {} {} {})", if rng.chance(1, 3) { "rngk" } else { "rng" }, s, e, o));
+            acts.push(format!("({} {} {} {})", match rng.below(6) { 0 | 1 => "rngk", 2 => "rngv", _ => "rng" }, s, e, o));
         } else if r < 44 {
             acts.push(format!("(attr {} {})", attr_key(rng, ctx), rng.pick(VALS)));
         } else if r < 50 {
